@@ -1522,7 +1522,8 @@ impl ProtocolState {
 
                 // Regardless of ping timeout configuration, if we haven't heard anything by KeepAlive * 1.5, then
                 // close the connection
-                let final_timeout = self.config.ping_timeout.min(Duration::from_secs(server_keep_alive / 2));
+                // half the keep alive, in milliseconds so that odd values (and 1) are not truncated
+                let final_timeout = self.config.ping_timeout.min(Duration::from_millis(server_keep_alive * 500));
                 self.ping_timeout_timepoint = Some(context.current_time + final_timeout);
 
                 if server_keep_alive > 0 {
